@@ -173,7 +173,11 @@ def _r2_r3(ctx):
 
 
 def _fallback_slots(f, call, cfg):
-    """Slots of the two suffix fall-backs following the primary look-up `call` in function f."""
+    """Slots of the two suffix fall-backs following the primary look-up `call` in function f.
+
+    A fall-back is a second get_instruction on the same receiver whose result is assigned to the same variable as the
+    primary look-up and which is dominated by it; its guard is the set of facts that hold at the retry and do not
+    already hold at the primary look-up (however they are spread over nested ifs and conjunctions)."""
     st = cfg.node_of(call)
     if not (isinstance(st, ast.Assign) and isinstance(st.targets[0], ast.Name)):
         return None
@@ -181,27 +185,34 @@ def _fallback_slots(f, call, cfg):
     recv = U(call.func.value)
     mn, ops = U(call.args[0]), U(call.args[1])
     out = {"var": var, "x86": None, "aarch64": None}
-    for n in ast.walk(f.node):
-        if not isinstance(n, ast.If) or not isinstance(n.test, ast.BoolOp) or not isinstance(n.test.op, ast.And):
+    base = {(U(e), p) for e, p in C.facts_at(st)}
+    flow = C.flow_of(f)
+    for r in C.calls_to(f.node, "get_instruction"):
+        rs = cfg.node_of(r)
+        if r is call or U(r.func.value) != recv or not (isinstance(rs, ast.Assign) and U(rs.targets[0]) == var):
             continue
-        parts = [U(v) for v in n.test.values]
-        miss = [p for p in parts if p in ("not " + var, var + " is None")]
-        if not miss or not cfg.dominates(st, n):
+        if not cfg.dominates(st, rs) or len(r.args) != 2:
             continue
-        retry = [c for c in C.calls_to(n, "get_instruction") if U(c.func.value) == recv
-                 and cfg.node_of(c) in n.body and U(cfg.node_of(c).targets[0]) == var]
-        if len(retry) != 1:
+        facts = {(U(e), p) for e, p in C.facts_at(rs)} - base
+        pos = {t for t, p in facts if p}
+        neg = {t for t, p in facts if not p}
+        miss = (var + " is None") in pos or var in neg or (var + " is not None") in neg
+        if not miss:
             continue
-        r = retry[0]
-        flow = C.flow_of(f)
         arg0 = U(flow.subst(r.args[0]))
-        if "self._isa == 'x86'" in parts:
-            out["x86"] = {"suffix_test": "%s[-1] in self.GAS_SUFFIXES" % mn in parts, "slice": arg0 == "%s[:-1]" % mn,
-                          "operands": U(r.args[1]) == ops, "node": n, "extra": len(parts) != 3}
-        elif "self._isa == 'aarch64'" in parts:
-            out["aarch64"] = {"suffix_test": "'.' in %s" % mn in parts,
-                              "slice": arg0 in ("%s[:%s.index('.')]" % (mn, mn),),
-                              "operands": U(r.args[1]) == ops, "node": n, "extra": len(parts) != 3}
+        rest = lambda *known: [t for t, p in facts if not (p and t in known) and t not in (var + " is None",)
+                               and not (not p and t in (var, var + " is not None"))]
+        if C.canon_eq("self._isa", "'x86'") in pos:
+            suffix = "%s[-1] in self.GAS_SUFFIXES" % mn
+            out["x86"] = {"suffix_test": suffix in pos, "slice": arg0 == "%s[:-1]" % mn,
+                          "operands": U(r.args[1]) == ops, "node": rs, "extra": bool(rest(C.canon_eq("self._isa", "'x86'"), suffix))}
+        elif C.canon_eq("self._isa", "'aarch64'") in pos:
+            suffix = "'.' in %s" % mn
+            out["aarch64"] = {"suffix_test": suffix in pos,
+                              "slice": arg0 in ("%s[:%s.index('.')]" % (mn, mn), "%s.partition('.')[0]" % mn,
+                                                "%s.split('.')[0]" % mn, "%s.split('.', 1)[0]" % mn),
+                              "operands": U(r.args[1]) == ops, "node": rs,
+                              "extra": bool(rest(C.canon_eq("self._isa", "'aarch64'"), suffix))}
     return out
 
 
@@ -239,7 +250,12 @@ def _r4(ctx, rule="R4", funcs=("ArchSemantics.assign_tp_lt", "ISASemantics.assig
     ctx.floor(rule, "primary look-ups", sites, floor)
     for cls in ("ArchSemantics", "ISASemantics"):
         v = ctx.repo.cls(cls).class_attrs.get("GAS_SUFFIXES")
-        ctx.check(v is not None and C.literal(v) == "bswlqt", rule, "%s.GAS_SUFFIXES = 'bswlqt'" % cls, ctx.repo.cls(cls).where(),
+        try:
+            lit = C.literal(v) if v is not None else None
+        except Exception:
+            lit = None
+        same = lit is not None and all(isinstance(x, str) and len(x) == 1 for x in lit) and sorted(lit) == sorted("bswlqt")
+        ctx.check(same, rule, "%s.GAS_SUFFIXES = 'bswlqt'" % cls, ctx.repo.cls(cls).where(),
                   "GAS_SUFFIXES of %s is %s" % (cls, U(v) if v is not None else None), cls, "GAS_SUFFIXES")
     # a miss is None: InstructionForm defines neither __bool__ nor __len__ (so `not x` == `x is None`)
     iform = ctx.repo.cls("InstructionForm")
